@@ -30,6 +30,7 @@ RULE = (
 ASSUMPTIONS = [
     "history part: all ordered pairs (thorough: triples) of a small call alphabet chosen to collide in every shape-like cache key, each history in a forked child, compared with a fresh-process result",
     "bounded scope: 'all float maps' = all maps with h,w <= 3 (plus 1xN/Nx1 strips N<=5; thorough: 3x4, 4x3 over 3 levels and 4x4 over 2 levels) over <= 5 value levels {-1,0,0.3,0.5,1}, plus structured larger maps (3x3 enumerations embedded in 5x5/7x7 zero maps, one/two Gaussian bumps on 5x5 and 7x7)",
+    "float64 family: all maps up to 2x3 / 3x2 (thorough 3x3) over the levels {0, 0.1, 0.1+1e-10, 0.7}, thresholds {0, 0.05}, rough detector and find_local_peaks without refinement",
     "thresholds {-2, -0.5, 0, 0.3, 0.5} are passed as the float64 value of their float32 rounding, so that 'value == threshold' ties are exact in the maps' dtype (float32)",
     "refinement displacement bound is asserted on the domain where it exists mathematically: non-negative map and positive peak value (regression weights form a convex combination); 'half a patch' is read as the half-extent (patch-1)/2 of the patch's cell-centre grid, +1e-5 float32 slack; outside that domain only count/order/indices/values are asserted and the cases are counted (refine_outside_domain)",
     "packing independence is checked between layout A (N,1), layout B (ceil(N/3),3) with the map order rotated (rotation depends on VERIF_SEED) and layout C (= B stored channels-last: a dense non-contiguous tensor) -- other batch shapes are outside the bound",
@@ -85,7 +86,7 @@ def n_maps(spec):
 def build(spec):
     lo, n = spec["lo"], spec["n"]
     if spec["gen"] == "enum":
-        h, w, alph = spec["h"], spec["w"], np.asarray(spec["alphabet"], dtype=np.float32)
+        h, w, alph = spec["h"], spec["w"], np.asarray(spec["alphabet"], dtype=np.float64 if spec.get("f64") else np.float32)
         A, hw = len(alph), h * w
         idx = np.arange(lo, lo + n, dtype=np.int64)
         pw = A ** np.arange(hw - 1, -1, -1, dtype=np.int64)
@@ -94,7 +95,7 @@ def build(spec):
         emb = spec.get("embed")
         if emb:
             H, W, oy, ox = emb
-            big = np.zeros((n, H, W), dtype=np.float32)
+            big = np.zeros((n, H, W), dtype=maps.dtype)
             big[:, oy : oy + h, ox : ox + w] = maps
             maps = big
         return np.ascontiguousarray(maps)
@@ -403,6 +404,8 @@ def state_base(spec):
     if spec["gen"] == "enum":
         emb = spec.get("embed") or [0, 0, 0, 0]
         tag = ((spec["h"] * 8 + spec["w"]) * 8 + len(spec["alphabet"])) * 64 + emb[0] * 8 + emb[2]
+        if spec.get("f64"):
+            tag += 50000
     else:
         tag = 100000 + (spec["H"] * 8 + spec["W"]) * 2 + int(spec["two"])
     return tag << 40
@@ -495,7 +498,14 @@ def plan(tier):
     for H, W in ((5, 5), (7, 7), (5, 7)):
         for two in (False, True):
             items.append(({"gen": "bumps", "H": H, "W": W, "two": two}, [thr[1], thr[2], thr[3]], [3, 5]))
+    # double-precision maps over levels that single precision cannot tell apart (0.1 vs 0.1+1e-10) or cannot represent
+    # (0.7): ties and near-ties below float32 resolution; rough detector only
+    for h, w in ((1, 2), (2, 2), (1, 3), (2, 3), (3, 2)) + (((3, 3),) if tier != "quick" else ()):
+        items.append(({"gen": "enum", "h": h, "w": w, "alphabet": ALPHA_F64, "f64": True}, [0.0, 0.05], [None]))
     return items
+
+
+ALPHA_F64 = [0.0, 0.1, 0.1 + 1e-10, 0.7]
 
 
 FN_NAME = "find_local_peaks"
